@@ -322,7 +322,9 @@ func cmdCheck(argv []string) int {
 		rsem := make(chan struct{}, 4)
 		n := 0
 		for i, o := range failed {
-			if o.Status != "sat" || o.Kind == "cover" || matchKnown(known, prop, o.Key()) != nil || n >= maxReplays {
+			replayable := o.Status == "sat" || ((o.Status == "timeout" || o.Status == "unknown") && o.Ctx != nil && o.Ctx.top != nil &&
+				(o.Kind == "post" || o.Kind == "bounds" || o.Kind == "slice" || o.Kind == "nilmap" || o.Kind == "assert-type" || o.Kind == "nilptr"))
+			if !replayable || o.Kind == "cover" || matchKnown(known, prop, o.Key()) != nil || n >= maxReplays {
 				continue
 			}
 			n++
